@@ -347,21 +347,38 @@ def check_transforms(chk, r, tmp, quick):
                 # declared order of the parameters is not the alphabetical one, bounds are unequal
                 names = ["zeta", "alpha", "mu", "beta"][: c["d"]]
                 bounds = {n: [float(a), float(b)] for n, a, b in zip(names, c["lo"], c["hi"])}
+                # the clipping margin is an OPTION of the saved object: the default, a wider one, none at all (`eps=None`: no clamping)
+                eps_opt = (1e-6, None, 1e-3, 1e-6)[i % 4] if c["bounded_kind"] == "logit" else 1e-6
+                case["eps"] = eps_opt
+                chk.count(f"transform_eps:{eps_opt}")
                 t = T.CompositeTransform(parameters=names, periodic_parameters=[names[k] for k in c["periodic_idx"]] if c["periodic_on"] else [], prior_bounds=bounds,
                                          bounded_to_unbounded=c["bounded_on"], bounded_transform=c["bounded_kind"], affine_transform=c["affine_on"],
-                                         xp=ns.get_xp(c["ns"]), eps=1e-6, dtype=ns.native_dtype(c["ns"], c["width"]))
+                                         xp=ns.get_xp(c["ns"]), eps=eps_opt, dtype=ns.native_dtype(c["ns"], c["width"]))
             xp, dt = ns.get_xp(c["ns"]), ns.native_dtype(c["ns"], c["width"])
             t.fit(xp.asarray(np.asarray(c["fit"]), dtype=dt))
-            x = xp.asarray(np.asarray(c["x"]), dtype=dt)
-            y0, lj0 = t.forward(x)
+            xs_ = np.asarray(c["x"], dtype=float)
+            if c["cls"] == "composite" and c["bounded_on"]:
+                # points ON and next to the bounds, where the clipping margin decides the image
+                lo_, hi_ = np.asarray(c["lo"], float), np.asarray(c["hi"], float)
+                edge = np.vstack([lo_, hi_, lo_ + 1e-9 * (hi_ - lo_), hi_ - 1e-9 * (hi_ - lo_)])
+                xs_ = np.vstack([xs_, edge])
+                c = {**c, "x": xs_.tolist()}
+            x = xp.asarray(xs_, dtype=dt)
+            with np.errstate(all="ignore"):
+                y0, lj0 = t.forward(x)
             p = os.path.join(tmp, f"t{j}.h5"); j += 1
             with h5py.File(p, "w") as f:
                 t.save(f, "data_transform")
             with h5py.File(p, "r") as f:
                 t2 = T.BaseTransform.load(f, "data_transform")
             os.remove(p)
-            y1, lj1 = t2.forward(xp.asarray(np.asarray(c["x"]), dtype=dt))
+            with np.errstate(all="ignore"):
+                y1, lj1 = t2.forward(xp.asarray(np.asarray(c["x"]), dtype=dt))
             tol = 1e-5 if c["width"] == "f32" else 1e-12
+            # the settings of the object (what `config` saves), not only its action on interior points
+            sa, sb = getattr(t, "eps", "absent"), getattr(t2, "eps", "absent")
+            if sa != sb and not (sa is None and sb is None):
+                chk.fail("a saved transform reproduces the same map", case, f"option eps = {sa!r} reloads as {sb!r}", {"level": "transform", "clause": "settings", "cls": c04.combo(c)})
             if type(t2) is not type(t) or not np.allclose(ns.to_np(y0), ns.to_np(y1), rtol=tol, atol=tol, equal_nan=True) or \
                not np.allclose(ns.to_np(lj0), ns.to_np(lj1), rtol=tol, atol=tol, equal_nan=True):
                 chk.fail("a saved transform reproduces the same map", case, f"max |dy| = {np.nanmax(np.abs(ns.to_np(y0) - ns.to_np(y1))):.3g}", {"level": "transform", "clause": "equal", "cls": c04.combo(c)})
@@ -423,6 +440,57 @@ def check_flows(chk, tmp, quick):
             chk.fail("a saved flow reloads", case, repr(e)[:200], {"level": "flow", "clause": "raise", "backend": backend, "custom_options": bool(opts), "exc": type(e).__name__})
 
 
+def check_flow_precision(chk, tmp):
+    """the precision of a saved torch flow belongs to the FILE, not to the process that reads it: a flow built with `dtype` left
+    unset under one torch default dtype, reloaded under the other, has the precision it was saved with and the same density"""
+    import h5py
+    import torch
+
+    from aspire.flows import get_flow_wrapper
+    from aspire.transforms import FlowTransform
+
+    F, xp = get_flow_wrapper("zuko")
+    data64 = np.random.default_rng(5).normal(0.3, 0.8, (60, 2))
+    old = torch.get_default_dtype()
+    try:
+        for at_save, at_load, explicit in ((torch.float64, torch.float32, None), (torch.float32, torch.float64, None),
+                                           (torch.float64, torch.float32, torch.float64), (torch.float32, torch.float32, None)):
+            case = {"level": "flow_precision", "default_at_save": str(at_save), "default_at_load": str(at_load), "dtype_option": str(explicit)}
+            chk.count("flows:precision")
+            chk.case(case, json.dumps(case))
+            try:
+                torch.set_default_dtype(at_save)
+                tr = FlowTransform(parameters=["zeta", "alpha"], prior_bounds={"zeta": [-4.0, 5.0], "alpha": [-3.0, 3.5]}, bounded_to_unbounded=True,
+                                   bounded_transform="logit", affine_transform=True, xp=xp, eps=1e-6)
+                kw = {} if explicit is None else {"dtype": explicit}
+                f = F(dims=2, seed=3, device="cpu", data_transform=tr, **kw)
+                data = torch.as_tensor(data64, dtype=f.dtype if getattr(f, "dtype", None) is not None else at_save)
+                f.fit(data, n_epochs=1)
+                with torch.no_grad():
+                    ref = ns.to_np(f.log_prob(data[:10])).astype(float)
+                dt_saved = next(f._flow.parameters()).dtype if hasattr(f, "_flow") else None
+                p = os.path.join(tmp, f"flowprec_{len(case['default_at_save'])}_{len(case['default_at_load'])}_{explicit}.h5")
+                with h5py.File(p, "w") as h:
+                    f.save(h, "flow")
+                torch.set_default_dtype(at_load)
+                with h5py.File(p, "r") as h:
+                    g = F.load(h, "flow")
+                os.remove(p)
+                dt_loaded = next(g._flow.parameters()).dtype if hasattr(g, "_flow") else None
+                with torch.no_grad():
+                    got = ns.to_np(g.log_prob(data[:10])).astype(float)
+                if dt_saved is not None and dt_loaded != dt_saved:
+                    chk.fail("a saved flow reproduces the same density", case, f"weights saved as {dt_saved}, reloaded as {dt_loaded}",
+                             {"level": "flow", "clause": "precision", "backend": "zuko"})
+                elif not np.allclose(ref, got, rtol=1e-5, atol=1e-5):
+                    chk.fail("a saved flow reproduces the same density", case, f"max |d log_prob| = {np.max(np.abs(ref - got)):.3g}",
+                             {"level": "flow", "clause": "equal", "backend": "zuko", "precision": True})
+            except Exception as e:   # noqa
+                chk.fail("a saved flow reloads", case, repr(e)[:200], {"level": "flow", "clause": "raise", "backend": "zuko", "precision": True, "exc": type(e).__name__})
+    finally:
+        torch.set_default_dtype(old)
+
+
 # ----------------------------------------------------------------------------- (6) configuration rebuild
 def check_config(chk, tmp):
     from aspire import Aspire
@@ -482,6 +550,7 @@ def run(chk: core.Check):
         check_histories(chk, tmp)
         check_transforms(chk, r, tmp, quick)
         check_flows(chk, tmp, quick)
+        check_flow_precision(chk, tmp)
         check_config(chk, tmp)
     finally:
         shutil.rmtree(tmp, ignore_errors=True)
